@@ -14,6 +14,8 @@ MONITORS = {
     'C17': 'vf.monitors.m_c17', 'C03': 'vf.monitors.m_c03', 'C04': 'vf.monitors.m_c04',
     'C01': 'vf.monitors.m_c01', 'C05': 'vf.monitors.m_c01', 'C02': 'vf.monitors.m_c02',
     'C12': 'vf.monitors.m_c12',
+    'C06': 'vf.monitors.m_c06', 'C07': 'vf.monitors.m_c07', 'C08': 'vf.monitors.m_c08',
+    'C09': 'vf.monitors.m_c09', 'C10': 'vf.monitors.m_c10',
 }
 
 
